@@ -48,6 +48,7 @@ CONTAINERS = {
     "gen_stopchain.py": r"operator\(\)",
     "gen_C07_alm.py": r"operator\(\)",
     "gen_ocp.py": r"operator\(\)",
+    "gen_C04_vtable.py": r"load",          # CasADiFunctionsWithParam::load: only its function table initialiser is read (TABLES)
 }
 
 # statement sites inside containers: (translator, file suffix, unit name, regex on the first statement[, regex on the last statement])
@@ -79,6 +80,7 @@ TABLES = [
     ("gen_C18_tables.py", "params/structs.ipp", r"\bPARAMS_TABLE\s*\("),
     ("gen_C18_tables.py", "params/structs.ipp", r"\bPARAMS_ALIAS_TABLE\s*\("),
     ("gen_C18_tables.py", "params/structs.ipp", r"\bENUM_TABLE\s*\("),
+    ("gen_C04_vtable.py", "casadi/CasADiProblem.tpp", r"\bCasADiFunctionsWithParam\s*\{(?=\s*\.n\b)"),
 ]
 
 # silent misses that are accepted, each with its reason: regex on "translator|file|unit|mutation description"
@@ -940,7 +942,8 @@ def unit_mutants(u, info):
         return mutants_code(S, M, u["a"], u["b"], partner, single_statement=u["single"], site=u.get("site", False))
     if u["mode"] == "list":
         ents = list_entries(M, u["a"], u["b"], partner)
-        return mutants_table(S, M, ents[1:] if len(ents) > 2 else ents, ",", "list")
+        first_is_type = M[u["a"] - 1] == "("            # macro tables: the first argument is the type the table is for
+        return mutants_table(S, M, ents[1:] if first_is_type and len(ents) > 2 else ents, ",", "list")
     if u["mode"] == "enum":
         return mutants_table(S, M, list_entries(M, u["a"], u["b"], partner), ",", "enum")
     if u["mode"] == "struct":
